@@ -208,6 +208,17 @@ prop('C11', 'exploration',
      'access is observed through sys.addaudithook events naming the canary path / host; the optional lxml backend is not installed',
      'TLA+ grammar/entry-point enumeration + TLC + replay with I/O canaries + static call-site inventory', 'section 5 C11')
 
+prop('C08', 'model_checking',
+     'EndToEnd.tla composes the IdP build options with the SP acceptance table of C02 (precondition: the requirements are met), the '
+     'release contract of C07 (the SP\'s generated metadata asks for what its configuration lists) and the transports of C14, and '
+     'enumerates sign_response x sign_assertion x encrypt_assertion x algorithm pair x POST/Redirect/SOAP x requirement triple x '
+     'NameID format x session expiry x 11 value classes x unknown attribute; IdP and SP are configured from each other\'s '
+     'generated metadata, the response is built by Server.create_authn_response, packed by apply_binding, read from the wire by '
+     'independent parsers and parsed by the SP; subject, attributes (after name mapping and trimming), in-response-to, issuer, '
+     'session expiry and the element structure must equal what was asked',
+     TOOL_NOTE + '; concrete strings are sampled per class with the run seed (not proved for all strings); CR characters are '
+     'subject to XML line-end normalisation and excluded', 'TLA+ composed scenario spec + TLC + end-to-end replay', 'section 5 C08')
+
 
 def main():
     props = [json.loads(l) for l in open(os.path.join(VERIF, 'properties.jsonl'))]
